@@ -147,6 +147,21 @@ def _guarded(run: Callable[[Any], Outcome], case: Any, limit_s: float) -> Outcom
         out.inconclusive = True
         out.cls("watchdog-memory")
         return out
+    except Exception as e:  # noqa: BLE001
+        # An exception that escaped from the library under test into the check (innermost frame inside <REPID_SRC>/repid, and no
+        # check expected it there) is a verdict about the library - it raised where every check on the pinned tree runs through -
+        # not an error of the harness.  Anything raised by harness code itself stays a harness error (exit 2).
+        import traceback
+
+        tb = traceback.extract_tb(e.__traceback__)
+        lib = os.path.join(os.path.realpath(os.environ.get("REPID_SRC", "/repo")), "repid") + os.sep
+        if tb and os.path.realpath(tb[-1].filename).startswith(lib):
+            out = Outcome()
+            last = tb[-1]
+            out.v("library-exception", f"{type(e).__name__}: {e} - raised at {last.filename[len(lib) - 6:]}:{last.lineno} ({last.name}) and not "
+                  "handled anywhere: the operation the check performed failed inside the library", exception=type(e).__name__)
+            return out
+        raise
     finally:
         signal.setitimer(signal.ITIMER_REAL, 0)
         signal.signal(signal.SIGALRM, old)
